@@ -559,11 +559,26 @@ func TestVerifRace_C16_swap(t *testing.T) {
 			}
 			defer d.Close()
 			ctx := context.Background()
-			// returns once the crawl loop is back at its select, i.e. the initial crawl is swapped in
+			// wait (pacing, not a verdict) for the initial crawl, then for the crawl loop to be back at its
+			// select: TriggerRefresh is only received there, i.e. after the initial crawl was swapped in
+			for i := 0; ; i++ {
+				if n, _ := cr.Finished(); n >= 1 {
+					break
+				}
+				if i > 200000 {
+					c.Fail("harness-crawl-not-run", "initial crawl did not finish")
+					return
+				}
+				time.Sleep(100 * time.Microsecond)
+			}
 			if err := d.TriggerRefresh(ctx); err != nil {
 				c.Fail("harness-trigger", "TriggerRefresh: %v", err)
 				return
 			}
+			// Known finding #13 (configured limit never reaches the instance) is judged by unit "closest";
+			// this unit isolates the swap: results are judged against the limit the instance really applies.
+			effLimit := d.ipDiversityFilterLimit
+			c.Set("limit_effective_at_rest", effLimit == limit)
 			stop := make(chan struct{})
 			type rd struct {
 				n    int
@@ -603,9 +618,21 @@ func TestVerifRace_C16_swap(t *testing.T) {
 						if !c.Check(one, "swap-single-generation", "reader %d call %d: result %v (len %d) does not consist of peers of one generation (every generation holds more than K=%d peers; previous result was from generation %d)", i, rdr.n, vFrtShorts(R), len(R), K, last) {
 							continue
 						}
-						if crowded {
-							vC16Judge(c, views[g], key, R, K, limit, fmt.Sprintf("reader %d call %d gen %d", i, rdr.n, g))
+						if crowded && effLimit > 0 {
+							// overfull groups: the answer is not pinned down, but it must be ascending and within the limit
+							cnt := map[string]int{}
+							worst := 0
+							for _, p := range R {
+								for _, x := range views[g].groups[p] {
+									cnt[x]++
+									worst = max(worst, cnt[x])
+								}
+							}
 							c.Clause("swap-correct-for-generation")
+							if worst > effLimit {
+								c.FailSig("swap-correct-for-generation", "swap-limit-bypassed", "reader %d call %d: %d returned peers of generation %d share an IP group, limit %d (respected on the quiescent table): %v", i, rdr.n, worst, g, effLimit, vFrtShorts(R))
+							}
+							c.Check(vC16Ascending(key, R) && len(R) <= K, "swap-ascending", "reader %d call %d: %v not ascending / longer than K", i, rdr.n, vFrtShorts(R))
 						} else {
 							c.Check(vFrtEqualIDs(R, want[g][key]), "swap-correct-for-generation", "reader %d call %d: result %v lies in generation %d but its %d nearest are %v", i, rdr.n, vFrtShorts(R), g, K, vFrtShorts(want[g][key]))
 						}
